@@ -19,7 +19,41 @@ import (
 	fzf "github.com/junegunn/fzf/src"
 )
 
+func httpSummary(resp string, getCalled bool, delivered []string) string {
+	head, body := resp, ""
+	if i := strings.Index(resp, "\r\n\r\n"); i >= 0 {
+		head, body = resp[:i], resp[i+4:]
+	}
+	status := strings.ReplaceAll(strings.Split(head, "\r\n")[0], " ", "_")
+	del := "-"
+	if delivered != nil {
+		del = encStr(strings.Join(delivered, ";"))
+	}
+	return fmt.Sprintf("%s~%d~%s~%s", status, b2i(getCalled), encStr(body), del)
+}
+
+func httpSeqEval(a []string) string {
+	key := ""
+	if a[0] != "-" {
+		key = string(decBytes(a[0]))
+	}
+	reqs := [][][]byte{}
+	for _, q := range strings.Split(a[1], "@") {
+		reqs = append(reqs, decStrList(q))
+	}
+	resps, gets, dels := fzf.VerifHttpSession(key, reqs)
+	parts := []string{}
+	for i := range reqs {
+		r1, g1, d1 := fzf.VerifHandleHttpRequest(key, reqs[i])
+		parts = append(parts, httpSummary(resps[i], gets[i], dels[i])+"="+httpSummary(r1, g1, d1))
+	}
+	return strings.Join(parts, ";")
+}
+
 func httpEval(op string, a []string) string {
+	if op == "seq" {
+		return httpSeqEval(a)
+	}
 	if op != "req" {
 		panic("bad op")
 	}
@@ -100,6 +134,90 @@ func chunkUp(r *rand.Rand, data []byte) [][]byte {
 	return out
 }
 
+// genRequest: one request (as bytes) for a server with the given key, and the action text a
+// well-formed POST intends ("!" if none).
+func genRequest(r *rand.Rand, bodies []string, key string) ([]byte, string) {
+	var req strings.Builder
+	kind := r.Intn(10)
+	switch {
+	case kind < 3: // GET
+		req.WriteString([]string{"GET / HTTP/1.1", "GET /?limit=5 HTTP/1.1", "GET /?limit=3&offset=2 HTTP/1.1", "GET /x HTTP/1.1", "GET /?LIMIT=1 HTTP/1.1", "get / HTTP/1.1", "GET /?limit=abc&offset=7 HTTP",
+			"GET /?limit HTTP/1.1", "GET /?limit=3&offset HTTP/1.1", "GET /?x=1&limit&y=2 HTTP/1.1", "GET /?= HTTP/1.1", "GET /?&&= HTTP/1.1", "GET /?offset=-1&limit=0 HTTP/1.1"}[r.Intn(13)])
+		req.WriteString("\r\n")
+	case kind < 8: // POST
+		req.WriteString([]string{"POST / HTTP/1.1", "POST / HTTP/1.1", "POST /x HTTP/1.1", "POST / HTTP"}[r.Intn(4)])
+		req.WriteString("\r\n")
+	default:
+		req.WriteString([]string{"PUT / HTTP/1.1\r\n", "", "\r\n", "POST", "GET", "\x00\xff\r\n", "HELLO\n"}[r.Intn(7)])
+	}
+	body := bodies[r.Intn(len(bodies))]
+	hdrs := []string{}
+	intended := "!"
+	if kind >= 3 && kind < 8 && r.Intn(8) > 0 {
+		cl := len(body)
+		switch r.Intn(10) {
+		case 0:
+			cl++
+		case 1:
+			if cl > 0 {
+				cl--
+			}
+		case 2:
+			cl = 1048576 + r.Intn(2)
+		case 3:
+			cl = 0
+		}
+		if cl >= 1 && cl <= len(body) {
+			intended = encStr(strings.Trim(body[:cl], "\r\n"))
+		}
+		name := []string{"Content-Length", "content-length", "CONTENT-LENGTH"}[r.Intn(3)]
+		hdrs = append(hdrs, fmt.Sprintf("%s:%s%d", name, []string{" ", "", "  "}[r.Intn(3)], cl))
+		if r.Intn(15) == 0 {
+			hdrs[len(hdrs)-1] = name + ": abc"
+		}
+	}
+	if key != "-" || r.Intn(5) == 0 {
+		k := "secret"
+		if key != "-" {
+			k = string(decBytes(key))
+		}
+		switch r.Intn(6) {
+		case 0:
+			k = k + "x"
+		case 1:
+			k = k[:len(k)-1]
+		case 2:
+			k = strings.ToUpper(k)
+		case 3:
+			k = ""
+		}
+		if r.Intn(6) > 0 {
+			hdrs = append(hdrs, []string{"X-API-Key", "x-api-key"}[r.Intn(2)]+": "+k)
+		}
+	}
+	if r.Intn(3) == 0 {
+		hdrs = append(hdrs, "Host: localhost", "User-Agent: x:y", "Junk")
+	}
+	r.Shuffle(len(hdrs), func(i, j int) { hdrs[i], hdrs[j] = hdrs[j], hdrs[i] })
+	for _, h := range hdrs {
+		req.WriteString(h + "\r\n")
+	}
+	if r.Intn(12) > 0 {
+		req.WriteString("\r\n")
+	}
+	if kind >= 3 {
+		req.WriteString(body)
+	}
+	data := []byte(req.String())
+	if r.Intn(15) == 0 && len(data) > 3 { // early close
+		data = data[:r.Intn(len(data))]
+	}
+	if r.Intn(60) == 0 { // very long line
+		data = append(data, []byte(strings.Repeat("z", 70000))...)
+	}
+	return data, intended
+}
+
 func httpGen(r *rand.Rand, count int, emit func(op string, args ...string)) {
 	bodies := []string{"change-query(foo)", "up+down", "first", "reload(seq 10)", "change-query(a)+toggle-all", "bogus-action", "", "execute(echo x)",
 		"put(x)", "abort", "change-query:hello world", "up\r\n", "\r\nup", "select-all+accept", "change-prompt[x> ]"}
@@ -108,84 +226,20 @@ func httpGen(r *rand.Rand, count int, emit func(op string, args ...string)) {
 		if r.Intn(2) == 0 {
 			key = encStr([]string{"secret", "k", "sécret", "a b"}[r.Intn(4)])
 		}
-		var req strings.Builder
-		kind := r.Intn(10)
-		switch {
-		case kind < 3: // GET
-			req.WriteString([]string{"GET / HTTP/1.1", "GET /?limit=5 HTTP/1.1", "GET /?limit=3&offset=2 HTTP/1.1", "GET /x HTTP/1.1", "GET /?LIMIT=1 HTTP/1.1", "get / HTTP/1.1", "GET /?limit=abc&offset=7 HTTP",
-				"GET /?limit HTTP/1.1", "GET /?limit=3&offset HTTP/1.1", "GET /?x=1&limit&y=2 HTTP/1.1", "GET /?= HTTP/1.1", "GET /?&&= HTTP/1.1", "GET /?offset=-1&limit=0 HTTP/1.1"}[r.Intn(13)])
-			req.WriteString("\r\n")
-		case kind < 8: // POST
-			req.WriteString([]string{"POST / HTTP/1.1", "POST / HTTP/1.1", "POST /x HTTP/1.1", "POST / HTTP"}[r.Intn(4)])
-			req.WriteString("\r\n")
-		default:
-			req.WriteString([]string{"PUT / HTTP/1.1\r\n", "", "\r\n", "POST", "GET", "\x00\xff\r\n", "HELLO\n"}[r.Intn(7)])
-		}
-		body := bodies[r.Intn(len(bodies))]
-		hdrs := []string{}
-		intended := "!"
-		if kind >= 3 && kind < 8 && r.Intn(8) > 0 {
-			cl := len(body)
-			switch r.Intn(10) {
-			case 0:
-				cl++
-			case 1:
-				if cl > 0 {
-					cl--
+		if r.Intn(6) == 0 {
+			// several requests against one server: every answer must be what the request gets alone
+			reqs := []string{}
+			for k := 2 + r.Intn(3); k > 0; k-- {
+				data, _ := genRequest(r, bodies, key)
+				if len(data) == 0 {
+					data = []byte("GET / HTTP/1.1\r\n\r\n")
 				}
-			case 2:
-				cl = 1048576 + r.Intn(2)
-			case 3:
-				cl = 0
+				reqs = append(reqs, encStrList(chunkUp(r, data)))
 			}
-			if cl >= 1 && cl <= len(body) {
-				intended = encStr(strings.Trim(body[:cl], "\r\n"))
-			}
-			name := []string{"Content-Length", "content-length", "CONTENT-LENGTH"}[r.Intn(3)]
-			hdrs = append(hdrs, fmt.Sprintf("%s:%s%d", name, []string{" ", "", "  "}[r.Intn(3)], cl))
-			if r.Intn(15) == 0 {
-				hdrs[len(hdrs)-1] = name + ": abc"
-			}
+			emit("seq", key, strings.Join(reqs, "@"))
+			continue
 		}
-		if key != "-" || r.Intn(5) == 0 {
-			k := "secret"
-			if key != "-" {
-				k = string(decBytes(key))
-			}
-			switch r.Intn(6) {
-			case 0:
-				k = k + "x"
-			case 1:
-				k = k[:len(k)-1]
-			case 2:
-				k = strings.ToUpper(k)
-			case 3:
-				k = ""
-			}
-			if r.Intn(6) > 0 {
-				hdrs = append(hdrs, []string{"X-API-Key", "x-api-key"}[r.Intn(2)]+": "+k)
-			}
-		}
-		if r.Intn(3) == 0 {
-			hdrs = append(hdrs, "Host: localhost", "User-Agent: x:y", "Junk")
-		}
-		r.Shuffle(len(hdrs), func(i, j int) { hdrs[i], hdrs[j] = hdrs[j], hdrs[i] })
-		for _, h := range hdrs {
-			req.WriteString(h + "\r\n")
-		}
-		if r.Intn(12) > 0 {
-			req.WriteString("\r\n")
-		}
-		if kind >= 3 {
-			req.WriteString(body)
-		}
-		data := []byte(req.String())
-		if r.Intn(15) == 0 && len(data) > 3 { // early close
-			data = data[:r.Intn(len(data))]
-		}
-		if r.Intn(60) == 0 { // very long line
-			data = append(data, []byte(strings.Repeat("z", 70000))...)
-		}
+		data, intended := genRequest(r, bodies, key)
 		emit("req", key, encStrList(chunkUp(r, data)), intended)
 	}
 }
